@@ -424,11 +424,11 @@ func init() {
 	hx.Register(&hx.Prop{
 		ID:          "C15",
 		Workers:     func(string) int { return 16 },
-		BudgetQuick: 150 * time.Second,
+		BudgetQuick: 300 * time.Second,
 		BudgetThor:  25 * time.Minute,
 		Kind:        "schedules",
 		Rule: "all rule sets of 1..3 rules over {W: writes its local t then reads it back, R: reads t without assigning, RW: reads t before first write} plus sets with WO (the local holds an object made for this execution by an injected function and is read through a method of it) plus sets with a writer that fails after writing (rule-level panic / ordinary error) followed by readers in every salience order x all 21 engine models (x policy) x two consecutive calls on one engine (each call with a data context of its own; and, under the default schedule, both calls on one builder and data context); goroutine-spawning models under every schedule with <=2 (thorough 3) deviations from the default scheduler (delay bounding); plus two overlapping pool requests running the same rules with request-unique values; plus call histories in which the same name is a rule local in one call and an injected (shared) name in the next, engine and pool; " +
-			"oracle: R/RW never obtain a value (no result entry, error), every W returns and reads back its own value, updates of the shared injected object are all present",
+			"plus locals bound to injected values of every shape that Go copies on assignment (scalar, string, struct value, array, array element of a slice): a later store into the injected object - by the same rule or by another rule of the call - must not show through the local; oracle: R/RW never obtain a value (no result entry, error), every W returns and reads back its own value, updates of the shared injected object are all present",
 		Assume: []string{"strict saliences", "each rule updates its own field of the shared injected object (a concurrent read-modify-write of one host field is the host's business)"},
 		Run: func(c *hx.Ctx) {
 			cfgs, bounds := c15Configs(c.Thorough())
@@ -445,6 +445,11 @@ func init() {
 					continue
 				}
 				hx.Explore("C15", c15Scenario(cfg), hx.ExploreCfg{Bound: envBound(delayBound(c, bounds[i])), Delay: true, Prune: true, Deadline: c.Deadline}, c.Res)
+			}
+			if c.Shard == 0 {
+				for _, m := range []string{"Execute", "ExecuteConcurrent", "ExecuteMixModel"} {
+					hx.Explore("C15", aliasScenario(m), hx.ExploreCfg{Bound: 0, DefaultOnly: true}, c.Res)
+				}
 			}
 			if c.Shard == 0 {
 				for _, order := range [][]bool{{false, true}, {true, false}, {false, true, false}, {true, false, true}, {false, false, true}} {
@@ -466,4 +471,112 @@ func init() {
 			return c15Scenario(cfg)
 		},
 	})
+}
+
+// ---- a local holds a copy of what Go copies on assignment ----
+// `t = g.Arr` binds the local to the VALUE of the injected array field (likewise scalar, string and
+// struct-valued fields): later stores into the injected object must not show through the local, in
+// the same rule or in another one. (Slices, maps and pointers share their target - not judged.)
+
+type aliasIn struct{ F int64 }
+
+type aliasG struct {
+	N   int64
+	S   string
+	Arr [2]int64
+	St  aliasIn
+	Sl  [][2]int64
+}
+
+type aliasState struct {
+	g    *aliasG
+	seen [][]interface{}
+	err  error
+	pan  interface{}
+}
+
+const aliasRules = `
+rule "r0" salience 9 begin
+  n = g.N
+  s = g.S
+  a = g.Arr
+  st = g.St
+  e = g.Sl[0]
+  g.N = 50
+  g.S = "changed"
+  g.Arr[0] = 42
+  g.Arr[1] = 43
+  g.St.F = 44
+  see(0, n, s, a[0], a[1], st.F, e[0])
+end
+rule "r1" salience 5 begin
+  a = g.Arr
+  n = g.N
+  see(1, n, "", a[0], a[1], 0, 0)
+  g.Arr[0] = 99
+  g.N = 98
+  see(2, n, "", a[0], a[1], 0, 0)
+end
+`
+
+func aliasScenario(model string) *hx.Scenario {
+	src := compileCached(aliasRules)
+	return &hx.Scenario{
+		Name: "c15alias",
+		Cfg:  model,
+		New: func() interface{} {
+			return &aliasState{g: &aliasG{N: 1, S: "orig", Arr: [2]int64{1, 2}, St: aliasIn{F: 3}, Sl: [][2]int64{{4, 5}}}}
+		},
+		Body: func(s interface{}) {
+			st := s.(*aliasState)
+			see := func(tag, n int64, str string, a0, a1, f, e0 int64) {
+				vsched.Obs()
+				if !vsched.Aborted() {
+					st.seen = append(st.seen, []interface{}{tag, n, str, a0, a1, f, e0})
+				}
+			}
+			rb := gx.Fresh(src, nil, map[string]interface{}{"g": st.g, "see": see})
+			g := engine.NewGengine()
+			m := gx.ModelByName(model)
+			st.err, st.pan = gx.CallGuarded(func() error { return m.Call(g, rb, gx.Params{B: true}) })
+		},
+		Check: func(s interface{}, ex *vsched.Exec) (fs []hx.Finding) {
+			st := s.(*aliasState)
+			bad := func(sig, msg string) {
+				fs = append(fs, hx.Finding{Sig: "c15:alias:" + model + ":" + sig, Msg: msg + fmt.Sprintf("\n  model=%s rules:%s  observed=%v err=%v", model, aliasRules, st.seen, st.err)})
+			}
+			if ex.Verdict != "" || st.pan != nil {
+				bad("did-not-complete", fmt.Sprintf("verdict %q panic %v %s", ex.Verdict, st.pan, firstLine(ex.Crash)))
+				return
+			}
+			if st.err != nil {
+				bad("error", "the rules are healthy but the call failed")
+				return
+			}
+			for _, o := range st.seen {
+				switch o[0].(int64) {
+				case 0:
+					want := []interface{}{int64(0), int64(1), "orig", int64(1), int64(2), int64(3), int64(4)}
+					if fmt.Sprint(o) != fmt.Sprint(want) {
+						bad("local-aliases-injected", fmt.Sprintf("rule r0 bound its locals to the injected values, then stored into the injected object; its locals now read %v, want %v (the values at the time of the assignment)", o[1:], want[1:]))
+					}
+				case 2:
+					// r1's locals were bound before its own stores: n and a must still hold what see(1,..) saw
+					var first []interface{}
+					for _, p := range st.seen {
+						if p[0].(int64) == 1 {
+							first = p
+						}
+					}
+					if first != nil && fmt.Sprint(o[1:]) != fmt.Sprint(first[1:]) {
+						bad("local-aliases-injected", fmt.Sprintf("rule r1's locals read %v before and %v after its stores into the injected object", first[1:], o[1:]))
+					}
+				}
+			}
+			if st.g.Arr != [2]int64{99, 43} && model == "Execute" {
+				bad("host-effect", fmt.Sprintf("host array is %v, want [99 43]", st.g.Arr))
+			}
+			return
+		},
+	}
 }
